@@ -1231,6 +1231,11 @@ class CSemantics:
 
         if self.equal_types(from_type, to_type):
             pass
+        elif from_type.is_void:
+            self.error(
+                "A void value cannot be converted to another type",
+                expr.location,
+            )
         elif isinstance(
             from_type, (types.PointerType, types.EnumType)
         ) and isinstance(to_type, types.BasicType):
